@@ -130,6 +130,7 @@ def py_traces(ctx, coders):
             ctx.require(c)
     if "range" in coders:
         ctx.require("trace_steps_with_words_held_back")
+        ctx.require("clones_while_words_held_back")
 
 
 def py_diff(ctx):
